@@ -67,14 +67,18 @@ func zzDialInv(t *torrent, limit int, dialled map[*outgoinghandshaker.OutgoingHa
 // connections - a tracker reply with one of 6 addresses (two ports of one host,
 // another host, a blocked host, the own listening address, a zero port), an outgoing
 // handshake finishing (ok or failed), a connected peer delivering a piece that
-// fails the hash check (ban), a disconnect, an incoming connection: every
+// fails the hash check (ban), a disconnect, an incoming connection,
+// completion, stop (the last two end the sequence): every
 // dial goes to an address with a non-zero port that is not the client's own,
 // not blocked, not banned, not already connected or being connected; at most
-// MaxPeerDial outgoing connections; one connection per IP.
+// MaxPeerDial outgoing connections; one connection per IP; an IP is marked as
+// connected only while a connection or handshake to it exists (also after
+// completion and after stop).
 //
 //vrt:cover ZZDialAdmission dialled
 //vrt:cover ZZDialAdmission peer banned
 //vrt:cover ZZDialAdmission address kept while at the dial limit
+//vrt:cover ZZDialAdmission completed with handshakes in flight
 func ZZDialAdmission() { zzDialAdmission(4) }
 
 // ZZDialAdmission5: 5 events.
@@ -133,7 +137,7 @@ func zzDialAdmission(steps int) {
 		if zzDialScript != nil {
 			ev = zzDialScript[step]
 		} else {
-			ev = vrt.Choice("event", 5)
+			ev = vrt.Choice("event", 7)
 		}
 		switch ev {
 		case 0: // addresses from a tracker or from PEX
@@ -208,6 +212,24 @@ func zzDialAdmission(steps int) {
 			if dup || banned || ip[2] == 1 {
 				vrt.Assert(len(t.incomingHandshakers) == before && conn.Closed == 1, "incoming connection from a blocked, banned or already connected IP accepted")
 			}
+		case 5: // all pieces arrive: the torrent completes and stops dialling
+			vrt.Note("complete")
+			for i := range t.pieces {
+				t.pieces[i].Done = true
+				t.bitfield.Set(uint32(i))
+			}
+			t.checkCompletion()
+			vrt.Cover(true, "completed with handshakes in flight")
+			vrt.Assert(len(t.outgoingHandshakers) == 0, "outgoing handshake still running after completion")
+			zzDialInv(t, limit, dialled, bannedBefore, connectedBefore)
+			return
+		case 6: // the user stops the torrent
+			vrt.Note("stop")
+			t.stop(nil)
+			vrt.Assert(len(t.peers) == 0 && len(t.outgoingHandshakers) == 0 && len(t.incomingHandshakers) == 0, "stopped torrent still has connections")
+			vrt.Assert(len(t.connectedPeerIPs) == 0, "stopped torrent still marks an IP as connected (it can never be dialled or accepted again)")
+			vrt.Assert(t.addrList.Len() == 0, "stopped torrent keeps candidate addresses")
+			return
 		}
 		zzDialInv(t, limit, dialled, bannedBefore, connectedBefore)
 	}
